@@ -11,6 +11,7 @@ import "verif/internal/gen"
 //	hole             an elision (array literals only)
 //	o                a plain object {} with identity Tag
 //	vo               {valueOf: function(){LOG("vo:Tag"); return Ret}}
+//	vom              the same, but valueOf pushes 99 onto the receiver before it returns
 //	ts               {toString: function(){LOG("ts:Tag"); return Ret}}
 //	tl               {toLocaleString: function(){LOG("tl:Tag"); return Ret}}
 //	arr              an anonymous nested array literal of E
@@ -73,6 +74,9 @@ type CB struct {
 type DescSpec struct {
 	Value *V    `json:"value,omitempty"`
 	Get   *V    `json:"get,omitempty"` // getter logging "get:<name>" and returning this value
+	// GetDel: the getter first deletes this index of the receiver (when it is configurable): the order
+	// of [[Get]] and [[HasProperty]] inside a method becomes observable
+	GetDel *int `json:"getdel,omitempty"`
 	Set   bool  `json:"set,omitempty"` // setter logging "set:<name>=<value>"
 	W     *bool `json:"w,omitempty"`
 	E     *bool `json:"e,omitempty"`
